@@ -2,7 +2,7 @@
    Ideal AEAD assumption: [open] succeeds only on genuine sealings ([genuine], a parameter). *)
 From Coq Require Import List NArith ZArith Bool.
 Import ListNotations.
-From VF Require Import Base Label Wire Wire_proofs.
+From VF Require Import Base Label Wire Wire_proofs Stream Stream_proofs.
 
 (* whatever decryptPayload accepts is a genuine sealing under an INSTALLED key, with the given
    associated data, of exactly the received nonce and ciphertext -- and the plaintext handed on is
@@ -26,6 +26,15 @@ Theorem C14_effect_requires_decryption : forall open decomp fuel c pkt ds,
     list_eqb N.eqb (plabel c) (if skip_label c then plabel c else lab) = true.
 Proof. exact ingest_authenticated. Qed.
 Print Assumptions C14_effect_requires_decryption.
+
+(* streams: with a keyring and incoming verification on, a message is read only through a successful
+   authenticated decryption whose associated data is  encryptMsg || length || the node's label *)
+Theorem C14_stream_authenticated : forall open decomp c label b t body,
+  enc_on c = true -> verify_in c = true -> read_stream open decomp c label b = SOk t body ->
+  exists l1 l2 l3 l4 rest plain, b = t_encrypt :: l1 :: l2 :: l3 :: l4 :: rest /\
+    decrypt_payload open c (firstn (N.to_nat (rd32 l1 l2 l3 l4)) rest) (t_encrypt :: l1 :: l2 :: l3 :: l4 :: label) = Ok plain.
+Proof. exact stream_authenticated. Qed.
+Print Assumptions C14_stream_authenticated.
 
 (* the unconditional statement ("exactly the original plaintext") is false: flipping the version byte
    of a genuine version-1 sealing whose plaintext happens to end in valid padding drops bytes *)
